@@ -1004,5 +1004,52 @@ func Corners(r *core.Rand) []Corner {
 	add("kac", "key certificate with 4000 excess bytes", k, k.Encode())
 	add("dest", "key certificate with 4000 excess bytes", k, k.Encode())
 	add("rident", "key certificate with 4000 excess bytes", k, k.Encode())
+
+	// length and count fields at the values where their two bytes are special together, or where a
+	// byte-wide computation wraps: 0x00FF, 0x0100, 0x0101, 0x01FF, 0x0200, 0x7FFF, 0x8000, 0xFF00, 0xFFFE
+	for _, n := range []int{255, 256, 257, 511, 512, 0x7fff, 0x8000, 0xff00, 0xfffe} {
+		cn := rm.Cert{Type: rm.CertHashcash, Payload: r.Bytes(n)}
+		add("cert", fmt.Sprintf("%d-byte payload", n), cn, cn.Encode())
+		if n >= 61 {
+			e2, _ := EncryptedLeaseSet(r)
+			e2.Inner = r.Bytes(n)
+			add("encleaseset", fmt.Sprintf("%d bytes of inner data", n), e2, e2.Encode())
+		}
+		if n <= 0x8000 {
+			kk, _ := KACOf(r, []int{7, 1, 2, 0, 11}[n%5], []int{4, 0}[n%2])
+			kk.Cert.Payload = append(append([]byte{}, kk.Cert.Payload[:4]...), r.Bytes(n-4)...)
+			add("kac", fmt.Sprintf("key certificate payload of %d bytes", n), kk, kk.Encode())
+			add("dest", fmt.Sprintf("key certificate payload of %d bytes", n), kk, kk.Encode())
+		}
+	}
+	for _, n := range []int{128, 254} {
+		rn, _ := RouterInfo(r)
+		rn.Addrs = nil
+		for i := 0; i < n; i++ {
+			ra := RouterAddress(r)
+			ra.Options = SmallMapping(r)
+			rn.Addrs = append(rn.Addrs, ra)
+		}
+		add("rinfo", fmt.Sprintf("%d addresses", n), rn, rn.Encode())
+	}
+	// dates and tunnel ids with the top bit set, all ones, all zero
+	for _, v := range []uint64{1 << 63, 1<<64 - 1, 0, 1<<63 - 1} {
+		lv := Lease(r)
+		lv.EndMs, lv.TunnelID = v, uint32(v>>32)
+		add("lease", fmt.Sprintf("end date %#x", v), lv, lv.Encode())
+		l2v := Lease2(r)
+		l2v.EndS, l2v.TunnelID = uint32(v>>32), uint32(v)
+		add("lease2", fmt.Sprintf("end date %#x", uint32(v>>32)), l2v, l2v.Encode())
+		lsv, _ := LeaseSet(r)
+		for len(lsv.Leases) < 3 {
+			lsv.Leases = append(lsv.Leases, Lease(r))
+		}
+		lsv.Leases[len(lsv.Leases)-1].EndMs = v
+		lsv.Leases[0].EndMs = v ^ 1
+		add("leaseset", fmt.Sprintf("first and last lease end dates around %#x", v), lsv, lsv.Encode())
+		rv, _ := RouterInfo(r)
+		rv.Published = v
+		add("rinfo", fmt.Sprintf("published %#x", v), rv, rv.Encode())
+	}
 	return out
 }
